@@ -136,8 +136,39 @@ func drawParams(r *core.Rng, t *template, m *mem) params {
 	if r.Bool() {
 		p.P2 = uint64(r.U32())<<32 | pickAddr(r, S, 8)
 	}
+	// upper half of the i64 a wrapped base value comes from: must be ignored
+	// by the engine; 1, 2 and 0xffffffff keep a stray access inside the red zones
+	upper := func() uint64 {
+		switch r.Intn(8) {
+		case 0:
+			return 0
+		case 1, 2:
+			return 1
+		case 3:
+			return 2
+		case 4:
+			return 0x7fffffff
+		case 5, 6:
+			return 0xffffffff
+		}
+		return uint64(r.U32())
+	}
 	setVar := func(v *baseVar, base uint32) {
 		switch v.Kind {
+		case "wrapx":
+			x := upper()<<32 | uint64(base)
+			switch v.Shape {
+			case "addv":
+				p.P2 = x - p.Val
+			case "val":
+				p.Val = x
+			case "exts":
+				p.P0 = base
+			case "select":
+				p.P2, p.Val = x, upper()<<32|uint64(base)
+			default:
+				p.P2 = x
+			}
 		case "p0":
 			p.P0 = base
 		case "p1":
@@ -149,9 +180,9 @@ func drawParams(r *core.Rng, t *template, m *mem) params {
 		case "shl":
 			p.P0 = base >> (v.K & 31)
 		case "wrap":
-			p.P2 = p.P2&^0xffffffff | uint64(base)
+			p.P2 = upper()<<32 | uint64(base)
 		case "wrap_add":
-			p.P2 = (p.P2&^0xffffffff | uint64(base)) - v.K64
+			p.P2 = (upper()<<32 | uint64(base)) - v.K64
 		}
 	}
 	acc := t.flat()
@@ -327,7 +358,7 @@ func run(c *core.Ctx) int {
 		need = append(need, fmt.Sprintf("size_pages_%d", s))
 	}
 	need = append(need, "run_interpreter/fixed-allocator", "run_compiler/fixed-allocator", "run_interpreter/moving-allocator", "run_compiler/moving-allocator",
-		"mem_local", "mem_imported", "mem_shared", "since_call-or-grow", "since_join", "since_none", "basekind_param", "basekind_const", "basekind_const-in-local",
+		"mem_local", "mem_imported", "mem_shared", "since_call-or-grow", "since_join", "since_none", "basekind_param", "basekind_const", "basekind_const-in-local", "basekind_wrapped-i64", "wrapped_base_dirty_upper_half",
 		"real_moves", "traps_expected", "traps_observed")
 	for _, k := range need {
 		if c.Counter(k) == 0 {
@@ -353,10 +384,11 @@ type crashInfo struct {
 	fault         uint64
 	hasAddr       bool
 	isFault       bool
+	nonCanonical  bool // si_code SI_KERNEL with address 0: the access used a non-canonical host address
 	lowAddr       bool // fault address below 4096 (the runtime turned it into a nil-dereference panic and could not unwind)
 }
 
-var reFaultAddr = regexp.MustCompile(`C02FAULT addr=(0x[0-9a-f]+)|unexpected fault address (0x[0-9a-f]+)`)
+var reFaultAddr = regexp.MustCompile(`C02FAULT addr=(0x[0-9a-f]+)(?: code=(-?\d+))?|unexpected fault address (0x[0-9a-f]+)`)
 
 func parseCrash(ci caseIn, cr *core.Crash) (ci2 crashInfo) {
 	x := crashInfo{runIdx: -1, tuple: -1}
@@ -397,9 +429,10 @@ func parseCrash(ci caseIn, cr *core.Crash) (ci2 crashInfo) {
 	if m := reFaultAddr.FindSubmatch(tail); m != nil {
 		h := string(m[1])
 		if h == "" {
-			h = string(m[2])
+			h = string(m[3])
 		}
 		x.fault, _ = strconv.ParseUint(h[2:], 16, 64)
+		x.nonCanonical = string(m[2]) == "128" && x.fault == 0
 		x.hasAddr = true
 		x.isFault = true
 		x.lowAddr = false
@@ -500,6 +533,38 @@ func handleCrash(c *core.Ctx, ci caseIn, cr *core.Crash) int {
 		}
 		choose(cands)
 		absolute = true
+	case x.nonCanonical || (region < 0 && fault >= 1<<33):
+		// a non-canonical host address (general-protection fault, no address
+		// reported) or a host address far from every reservation: explained by
+		// an access through a wrapped i64 whose upper half was not dropped
+		if x.nonCanonical {
+			where = "a non-canonical host address (general-protection fault, the kernel reports no address)"
+		} else {
+			where = fmt.Sprintf("host address %#x, far outside every reservation (memory base %+#x)", fault, int64(fault)-int64(bases[len(bases)-1]))
+		}
+		var cands []faultCand
+		seen := map[int]bool{}
+		delta := int64(fault) - int64(bases[len(bases)-1])
+		for i := range exp.Trace {
+			a := &exp.Trace[i]
+			if a.Upper == 0 || seen[a.ID] {
+				continue
+			}
+			full := int64(uint64(a.Upper)<<32 | uint64(a.Base))
+			n := int64(a.N)
+			if coarse(a.Class) != "bulk" {
+				full += int64(a.Off)
+			}
+			if n == 0 {
+				n = 1
+			}
+			hostAddr := bases[len(bases)-1] + uint64(full)
+			if (x.nonCanonical && hostAddr >= 1<<47 && hostAddr < 0xffff800000000000) || (!x.nonCanonical && delta >= full && delta < full+n) {
+				seen[a.ID] = true
+				cands = append(cands, faultCand{a, "upper-half-of-wrapped-i64-used"})
+			}
+		}
+		choose(cands)
 	case region < 0 && fault < 1<<33:
 		// far below every mapping: the guest address itself used as host address (memory base 0)
 		where = fmt.Sprintf("absolute host address %#x", fault)
@@ -606,6 +671,13 @@ func matchFault(trace []dynAccess, delta int64, region, nRegions int, moving, ab
 		} else {
 			cs = []cand{{"base+offset", b + o}, {"sext32(base)", sb + o}, {"sext32(offset)", b + so}, {"sext32(base)+sext32(offset)", sb + so},
 				{"wrap32(base+offset)", int64(uint32(a.Base + a.Off))}, {"sext32(wrap32(base+offset))", int64(int32(a.Base + a.Off))}}
+		}
+		if a.Upper != 0 {
+			full := int64(uint64(a.Upper)<<32 | uint64(a.Base))
+			if coarse(a.Class) != "bulk" {
+				full += o
+			}
+			cs = append(cs[:1], append([]cand{{"upper-half-of-wrapped-i64-used", full}}, cs[1:]...)...)
 		}
 		for k, c := range cs {
 			if delta < c.v || delta >= c.v+n {
@@ -905,6 +977,13 @@ func runOne(t *template, tuples []params, bin, xbin []byte, ri int, rc runCfg, o
 			cnt["cb:"+d.Class+"|"+d.Bucket]++
 			cnt["since_"+sinceCanon(d.Since)]++
 			cnt["basekind_"+strings.SplitN(d.VarKind, ":", 2)[0]]++
+			if d.Upper != 0 {
+				cnt["wrapped_base_dirty_upper_half"]++
+				cnt["wrapped_dirty_since_"+sinceCanon(d.Since)]++
+				if strings.HasPrefix(d.VarKind, "wrapped-i64:") {
+					cnt["wrapped_shape_"+d.VarKind[12:]]++
+				}
+			}
 			pg := d.Size / pageSize
 			known := false
 			for _, s := range memSizes {
@@ -951,7 +1030,11 @@ func runOne(t *template, tuples []params, bin, xbin []byte, ri int, rc runCfg, o
 			if a.Size == 1<<32 {
 				pg = "pages=65536"
 			}
-			return a.Class + ":" + sigBucket(a.Bucket) + ":" + pg
+			d := a.Class + ":" + sigBucket(a.Bucket) + ":" + pg
+			if a.Upper != 0 {
+				d += ":base=wrapped-i64-with-nonzero-upper-half"
+			}
+			return d
 		}
 		long := func(a *dynAccess) string {
 			if a == nil {
